@@ -1,29 +1,1 @@
-/-
-  C10 (driver model) — I/O failures are never reported as success.
--/
-import PatchModel.Model.Driver
-namespace PatchModel.C10
-open PatchModel
-
-/-- **single fault**: if the k-th file system operation of a run fails, the run ends with an exception (`main` prints a diagnostic and
-    exits with status 2) — nothing in the driver catches, ignores or retries a failed operation -/
-theorem fault_is_fatal (o : Options) (s0 : DState) (k : Nat) (hk : s0.faultAt = some k) (hc : s0.opCount = 0)
-    (hh : o.showHelp = false ∧ o.showVersion = false)
-    (hreached : (runPatch o s0).2.opCount > k) :
-    (runPatch o s0).1 = 2 := by
-  sorry
-
-/-- a fault scheduled beyond the last operation of the run is harmless: the run is identical to the fault-free run -/
-theorem fault_not_reached (o : Options) (s0 : DState) (k : Nat) (hc : s0.opCount = 0)
-    (hnot : (runPatch o { s0 with faultAt := none }).2.opCount ≤ k) :
-    (runPatch o { s0 with faultAt := some k }).1 = (runPatch o { s0 with faultAt := none }).1 ∧
-    (runPatch o { s0 with faultAt := some k }).2.fs = (runPatch o { s0 with faultAt := none }).2.fs ∧
-    (runPatch o { s0 with faultAt := some k }).2.out = (runPatch o { s0 with faultAt := none }).2.out := by
-  sorry
-
-/-- up to the fault the two runs are the same run: the operations performed before it are a prefix of the fault-free trace -/
-theorem fault_prefix (o : Options) (s0 : DState) (k : Nat) (hc : s0.opCount = 0) (ht : s0.trace = []) :
-    ∃ rest, (runPatch o { s0 with faultAt := none }).2.trace = (runPatch o { s0 with faultAt := some k }).2.trace ++ rest := by
-  sorry
-
-end PatchModel.C10
+import PatchModel.Props.C10
